@@ -188,6 +188,8 @@ CONT1 = {
     "nd_2xk_F": ("ndarray_layout", False),
     "nd_kx2_T": ("ndarray_layout", False),
     "nd_2xk_strided": ("ndarray_layout", False),
+    "named_pair": ("named_pair", False),
+    "named_pair_series": ("named_pair", True),
     "tuple_2tuples": ("nested_seq", False),
     "tuple_2lists": ("nested_seq", False),
     "tuple_2arrays": ("nested_seq", False),
@@ -380,6 +382,19 @@ def call_c1(src, cont, bins, wmode, wcont, dropna, kwname):
     if w is not None:
         kw["weights"] = w
     d = src.data
+    if cont in ("named_pair", "named_pair_series"):
+        # the (name, values) item of a groupby: every argument applies to the values, the name goes to the histogram
+        values = src.arr() if cont == "named_pair" else src.pd_series("pd_named")
+
+        def f():
+            kw2 = {k: v for k, v in kw.items() if k != "name"}
+            r = h1(("grp", values), *bargs, **kw2)
+            if r.name != "grp":
+                raise AssertionError(f"name of the pair not taken: {r.name!r}")
+            r.name = kw.get("name")
+            return r
+
+        return call(f)
     if cont == "list":
         return call(h1, list(d), *bargs, **kw)
     if cont == "tuple":
@@ -504,6 +519,7 @@ CORE1 = [
     ("list", "array"), ("iter", "array"), ("nd_2xk", "array"), ("pd_named", "array"), ("pd_Int64", "array"), ("pd_index", "array"),
     ("pd_acc_h1", "array"), ("pd_df_h1", "array"), ("pd_df_h1", "column"), ("pd_df_hist_str", "array"), ("pl_series", "array"),
     ("pl_ns_h1", "array"), ("pd_named", "pd_series"), ("pl_series", "pl_series"), ("nd_2xk_F", "array"), ("nd_kx2_T", "array"), ("tuple_2tuples", "array"),
+    ("named_pair", "array"),
 ]
 
 
@@ -573,6 +589,8 @@ CONTND = {
     "h:tuple_rows": ("h", "seq", False, False),
     "h:list_of_tuples": ("h", "seq", False, False),
     "h:list_of_arrays": ("h", "seq", False, False),
+    "h:iter_rows": ("h", "seq", False, False),
+    "h:gen_rows": ("h", "seq", False, False),
     "h:np_int": ("h", "ndarray", False, True),
     "h:np_f32": ("h", "ndarray", False, True),
     "h:np_F": ("h", "ndarray_layout", False, True),
@@ -722,6 +740,17 @@ def call_nd(src, cont, bins, wmode, dropna, kwname):
         return call(h, [tuple(r) for r in rows], *bargs, **kw)
     if cont == "h:list_of_arrays":
         return call(h, [np.array(r) for r in rows], *bargs, **kw)
+    if cont == "h:iter_rows":
+        return call(h, iter([list(r) for r in rows]), *bargs, **kw)
+    if cont == "h:gen_rows":
+        return call(h, (tuple(r) for r in rows), *bargs, **kw)
+    if cont == "h:dask_unnamed":
+        import dask.array as da
+
+        # (a dask array always has a .name - the key of its task graph - which is no axis name)
+        if d == 2 and src.n:
+            return call(h2, da.from_array(a[:, 0].copy(), chunks=max(1, src.n)), da.from_array(a[:, 1].copy(), chunks=max(1, src.n)), *bargs, **kw)
+        return call(h, a, *bargs, **kw)
     if cont == "h:np_int":
         return call(h, a.astype(np.int64), *bargs, **kw)
     if cont == "h:np_f32":
